@@ -1,10 +1,10 @@
 """C27 -- The classic VI driver accepts every documented configuration.
 
 Proved (coq/C27): for the control-flow model of nifty.cl.minimization.optimize_kl WITH the fixes
-fixes/C27-1..3.patch: every configuration meeting the documented preconditions returns (no exception),
+fixes/C27-1..4.patch: every configuration meeting the documented preconditions returns (no exception),
 the global RNG stack is balanced for every option combination and iteration count (dry run, early
 termination, resume with nothing left), result shape and file set follow the options; the pinned
-(unfixed) control flow is refuted on three counts (RNG leak, UnboundLocalError, stale output directory).
+(unfixed) control flow is refuted on four counts (RNG leak, UnboundLocalError, stale output directory, stale mean file).
 
 Tie: a pairwise covering array over the option values (+ error configurations + corpus) is executed on
 a tiny two-key Gaussian model; compared with the model inside coqc: exception class, result shape, RNG
@@ -240,7 +240,10 @@ def run_once(cfg, total, resume, outdir, known_dirs):
             if o["n"] == 1 and not o["residual"] and not cfg["dry"]:
                 s0 = sl.local_item(0)
                 o["single_equals_mean"] = all(np.array_equal(s0[k].asnumpy(), mean[k].asnumpy()) for k in mean.keys())
-            if cfg["init_pos"] and cfg["constants"] != "none" and not cfg["dry"] and "a" in mean.keys():
+            resumed_from_file = resume and last0 is not None
+            transformed = any(a[0] == "trans" for a in rec.acts)
+            if (cfg["init_pos"] and cfg["constants"] != "none" and not cfg["dry"] and "a" in mean.keys()
+                    and not resumed_from_file and not transformed):
                 o["constant_kept"] = bool(np.array_equal(mean["a"].asnumpy(), init["a"].asnumpy()))
     # put the RNG stack back (a leak must not influence the next configuration)
     while len(R._sseq) > depth0:
@@ -297,6 +300,8 @@ def direct_failures(cfg, total, resume, outdir, o, valid):
         sig = {"defect": "raises", "exception": o["err"].split(":")[0]}
         if o["code"] == 3:
             sig = {"defect": "unbound_iglobal"}
+        if resume and o["last0"] is not None and o["err"].startswith("KeyError"):
+            sig = {"defect": "stale_mean_file"}
         out.append((sig, "a valid configuration raised %s" % o["err"]))
     loaded = resume and o["last0"] is not None and o["code"] == 0 and o["first"] != total
     if o["depth1"] != o["depth0"]:
@@ -431,7 +436,7 @@ class C27(C.Check):
     coq_dir = "C27"
     trusted_base = [
         "Coq 8.16.1 kernel (coqc, vm_compute for the correspondence evaluation); no axioms",
-        "hand-written control-flow model coq/C27/Model.v of nifty/cl/minimization/optimize_kl.py with fixes C27-1..3 (tied by correspondence, not by translation)",
+        "hand-written control-flow model coq/C27/Model.v of nifty/cl/minimization/optimize_kl.py with fixes C27-1..4 (tied by correspondence, not by translation)",
         "the instrumentation in harness/props/c27.py: push_sseq/pop_sseq are recorded by wrapping the names imported into the driver's module; minimiser, transition and callbacks are recording objects; file sets are directory listings",
         "numerical content of minimisation and sampling is abstract in the model; the oracle checks result consistency on the tiny model only",
     ]
@@ -491,6 +496,9 @@ class C27(C.Check):
         todo += SPECIAL
         arr, left = covering_array(rng, 45 if ctx.quick else 140)
         todo += [("valid", c) for c in arr]
+        ks = sorted(PARAMS)
+        for _ in range(0 if ctx.quick else 120):       # beyond pairwise: random configurations
+            todo.append(("valid", normalise({k: PARAMS[k][int(rng.integers(0, len(PARAMS[k])))] for k in ks})))
         self.obs = []
         for k, (kind, cfg) in enumerate(todo):
             self.obs += self.execute(ctx, kind, cfg, "c%03d" % k)
